@@ -200,14 +200,15 @@ PROPS = {
         not_decided=['that the intermediate symbols are THE solution of the pre-code system (solver) and that generate_constraint_matrix/generate_hdpc_rows build the RFC matrix',
                      'source packet i carries source symbol i (source_packets uses iterator chains; planned bounded unit)', 'quick tier: enc_indices for d <= 8 only (complete d <= 30 in thorough)']),
     'C16': dict(
-        level='proof', units=[('V', 'V-DENSE', 'v_dense')],
+        level='proof', units=[('V', 'V-DENSE', 'v_dense'), ('V', 'V-SPARSE', 'v_sparse')],
         explanation='the bit-packed dense matrix against the abstract bit array cell(i, j), for all heights and widths: new (all zero), set, get, swap_rows, swap_columns (rows >= hint), add_assign_rows (row xor), '
                     'resize (shrinking keeps every remaining cell), query_non_zero_columns_into, get_ones_in_column_into (exactly the set cells, increasing); every postcondition speaks about the whole matrix (frame); '
-                    'word/bit addressing by non-linear lemmas, single-bit updates by bit_vector lemmas. The SPARSE matrix is NOT under contract (see not_decided): the claim covers the dense implementation only.',
+                    'word/bit addressing by non-linear lemmas, single-bit updates by bit_vector lemmas. SPARSE matrix: only its right-aligned dense tail is under contract: the addressing helpers and hint_column_dense_and_frozen '
+                    '(freezing a column keeps every already frozen column, one position further right, also across a word-per-row boundary where the words are re-spaced; unused left bits stay zero).',
         assumptions=['util::get_both_ranges and gf2::add_assign_binary external (contracts assumed)', 'assume_specification for usize::div_ceil and <[T]>::swap', 'Octet equality is structural'],
-        not_decided=['SparseBinaryMatrix (sparse rows, logical/physical maps, right-aligned dense tail, column index, hint_column_dense_and_frozen, resize): not brought under contract; a bounded Kani comparison against the dense matrix '
-                     '(K-SPARSE in /verif/hooks/lib_hooks.rs) did not finish within 30 min even with 3 symbolic cells (Vec<SparseBinaryVec>, sort) and is not run',
-                     'DenseBinaryMatrix::count_ones, get_row_iter (+ OctetIter), get_sub_row_as_octets', 'therefore the equivalence of the two implementations is decided for the dense side only']),
+        not_decided=['SparseBinaryMatrix beyond its dense tail: sparse rows (SparseBinaryVec), logical/physical row and column maps, column index, get/set/swap/add_assign_rows/resize/count_ones/queries are NOT under contract; '
+                     'a bounded Kani comparison against the dense matrix (K-SPARSE in /verif/hooks/lib_hooks.rs) did not finish within 30 min even with 3 symbolic cells and is not run',
+                     'DenseBinaryMatrix::count_ones, get_row_iter (+ OctetIter), get_sub_row_as_octets', 'therefore the equivalence of the two implementations is decided for the dense matrix and the dense tail of the sparse one only']),
     'C10': dict(
         level='proof', units=[('K', 'K-GF', None)],
         explanation='all harnesses loop-free over full u8 domains (spec loop of 8 steps fully unwound with unwinding assertions): complete',
